@@ -42,7 +42,10 @@ func (g *generator) generateParallel(
 		return err
 	}
 
-	if _, err := io.WriteString(w, "func() (err error) {\n"); err != nil {
+	// The user's expressions are evaluated in an outer function literal,
+	// before the literal that declares the named result err: an expression
+	// that mentions a variable called err must see the user's variable.
+	if _, err := io.WriteString(w, "func() error {\n"); err != nil {
 		return err
 	}
 
@@ -56,6 +59,9 @@ func (g *generator) generateParallel(
 	if err := prologueTmpl.ExecuteTemplate(w, _paramExprTmpl, paramExprs(exprs)); err != nil {
 		return err
 	}
+	if _, err := io.WriteString(w, "return func() (err error) {\n"); err != nil {
+		return err
+	}
 	if _, err := w.Write(b.Bytes()); err != nil {
 		return err
 	}
@@ -64,7 +70,7 @@ func (g *generator) generateParallel(
 	endPos := g.fset.Position(p.End())
 	// -1 because this is a line above the closing }().
 	fmt.Fprintf(w, "/*line %v:%d*/", filepath.Base(p.PosInfo.File), endPos.Line-1)
-	if _, err := io.WriteString(w, "}()"); err != nil {
+	if _, err := io.WriteString(w, "}()\n}()"); err != nil {
 		return err
 	}
 
